@@ -17,3 +17,9 @@ Print Assumptions C19_one_csv_file_per_flow.
 Example ex_C19_sanitize :
   sanitize [80; 49; 32; 61; 62; 32; 91; 85; 115; 101; 93; 45; 45] = [112; 49; 95; 95; 117; 115; 101].
 Proof. reflexivity. Qed.
+
+Theorem C19_one_csv_file_per_stock_quantity :
+  forall b names, NoDup (map sanitize names) ->
+  NoDup (stock_files b names) /\ length (stock_files b names) = (if b then 3 else 1) * length names.
+Proof. exact one_file_per_stock_quantity. Qed.
+Print Assumptions C19_one_csv_file_per_stock_quantity.
